@@ -44,6 +44,9 @@ func randLabels(r *rng.R, p float64) map[string]string {
 	for _, k := range Keys {
 		if r.P(p) {
 			lab[k] = rng.Pick(r, Vals)
+			if r.P(0.04) {
+				lab[k] = "" // the empty string is a valid label value
+			}
 		}
 	}
 	return lab
@@ -161,6 +164,9 @@ func GenSel(r *rng.R, w *World, pod bool, pEmpty float64) *Sel {
 	}
 	pool := labelPool(w, pod)
 	pickKV := func() (string, string) {
+		if r.P(0.05) {
+			return rng.Pick(r, Keys), "" // empty label value: must match only peers that carry the key with an empty value
+		}
 		if len(pool) > 0 && r.P(0.75) {
 			kv := rng.Pick(r, pool)
 			return kv[0], kv[1]
